@@ -912,6 +912,7 @@ def base_models():
     m.add(r"^(std::borrow::)?Cow::<.*>::into_owned$", m_cow_into_owned)
     m.add(r"^<variables::primitive::Primitive as ToOwned>::to_owned$", m_clone_value)
     m.add(r"^context::Ctx::<'_>::register_variable_local$", m_effect_ok)
+    m.add(r"^context::Ctx::<'_>::register_variable$", m_effect_ok)
     m.add(r"^context::Ctx::<'_>::load_variable$", m_load_variable)
     m.add(r"^PrimitiveFlagsPair::primitive$", m_pair_primitive)
     m.add(r"^<GcCellRef<'_, .*> as Deref>::deref$", m_gccellref_deref)
